@@ -27,15 +27,30 @@ class Prop:
 
     # ---- deductive tier
     def deductive(self, tier):
-        """-> list of pv.deductive.FunctionReport"""
-        return []
+        """-> list of pv.deductive.FunctionReport.  Default: the module pv/ded/<id>.py if present."""
+        import importlib
+        try:
+            mod = importlib.import_module('pv.ded.' + self.id)
+        except ModuleNotFoundError as e:
+            if e.name != 'pv.ded.' + self.id:
+                raise
+            return []
+        return mod.run(tier)
 
     def expected_obligations(self):
         p = os.path.join(env.VERIF, 'pv', 'expected', self.id + '.json')
         return json.load(open(p)) if os.path.exists(p) else None
 
     def replay_obligation(self, ob):
-        """Concretise a counter-model and run the real code.  -> dict(reproduced=bool, ...) or None."""
+        """Concretise a counter-model and run the real code.  -> dict(reproduced=bool, ...) or None.
+        Default: pv/ded/<id>.replay(ob) if defined, else a search of the bounded tier for a failing case."""
+        import importlib
+        try:
+            mod = importlib.import_module('pv.ded.' + self.id)
+            if hasattr(mod, 'replay'):
+                return mod.replay(self, ob)
+        except ModuleNotFoundError:
+            pass
         return None
 
     # ---- bounded tier
